@@ -231,8 +231,8 @@ META = {
     'outside': ['histories beyond the stepped horizon (the third rescue query of a long-lived record may lie outside it)', 're-cased aliases', 'unicast browsers (addr given)'],
     'stubs': env.STUBS,
     'float_sites': [
-        'RESCUE_RECORD_RETRY_TTL_PERCENTAGE = 0.1 times ttl*1000: fl(x*0.1) == x/10 for every multiple of 10 below 2^53 (vkit.floatlemmas L-tenth)',
-        'clock resolution 1e-6 ms added to an integral instant: `when > now + 1e-6` iff `when > now` for integral values (L-resolution)',
+        'RESCUE_RECORD_RETRY_TTL_PERCENTAGE = 0.1 times ttl*1000 is taken as exactly ttl*100: STATED, NOT SOLVED (vkit/floatlemmas.py L-tenth gives the argument; z3 and cvc5 timed out on the QF_BVFP query)',
+        'clock resolution 1e-6 ms added to an integral instant: `when > now + 1e-6` iff `when > now` for integral values (L-resolution, immediate)',
         'const._DNS_PTR_MIN_TTL = 1125.0 (exact)',
     ],
     'assumptions': ['CrossHair 0.0.110 / z3 5.1.0', 'clock values are integral milliseconds; timers fire exactly on time'],
